@@ -324,6 +324,256 @@ def run(loader, R, tier):
                         cls, f["n"], used[0], DUAL[cls]))
     R.floor("sign-family helpers inside sign visitors", nhelp, 1)
 
+    # ---------------------------------------------------------------- R34.5
+    # Kleene monotonicity: weakening one sub-answer to indeterminate must
+    # not produce a different definite answer (selib/tri.py)
+    from selib import tri
+    R.rule("R34.5", "handlers are monotone in their three-valued "
+                    "sub-answers (no definite answer from an "
+                    "indeterminate premise)")
+    nmono = 0
+    for vis in V.visitors():
+        mem, applyf, pre = result_member(prog, V, vis)
+        if not mem or applyf is None or strip_type(
+                applyf.get("ret", "")) != "SymEngine::tribool":
+            continue
+        own = short(vis)[:-len("Visitor")].lower() \
+            if short(vis).endswith("Visitor") else None
+        for h, Xs in sorted(V.by_handler(vis).items()):
+            f = prog.functions.get(h)
+            if f is None or not f.get("params"):
+                continue
+            key = "%s::bvisit(%s)" % (short(vis), short(f["params"][0]["t"]))
+            for unroll in (1, 2):
+                meta = {}
+                lv = tri.leaves(prog, f, mem, limit=30000, unroll=unroll,
+                                own=own, meta=meta)
+                if lv is None:
+                    R.undecided_obligation("R34.5", key, "more than 30000 "
+                                           "sub-answer assignments")
+                    break
+                ntri = max((len([k for k in a if k.startswith("tri:")])
+                            for a, _o in lv), default=0)
+                rs = [tri.result_of(o, mem) for _a, o in lv]
+                if not ntri or not any(r in ("T", "F") for r in rs):
+                    break           # nothing three-valued is combined here
+                if unroll == 1:
+                    nmono += 1
+                R.instance("R34.5", "%s/%d" % (key, unroll), sample={
+                    "handler": key, "loop_iterations": unroll,
+                    "sub_answers": ntri, "assignments": len(lv),
+                    "undetermined": rs.count(None)})
+                bad = tri.nonmonotone(lv, mem)
+                for a, r, b, r2, k in bad[:1]:
+                    names = {"T": "true", "F": "false", "I": "indeterminate"}
+                    R.violation(
+                        "R34.5", key, prog.loc(f),
+                        "%s answers %s when the sub-query `%s` is %s but "
+                        "the definite answer %s when that sub-query is "
+                        "indeterminate (other sub-answers: %s): an "
+                        "indeterminate premise cannot support a definite "
+                        "answer that differs from the one given when the "
+                        "premise is known" % (
+                            key, names[r], k[4:], names[a[k]], names[r2],
+                            ", ".join("%s=%s" % (x[4:] if x[3] == ":"
+                                                 else x[5:], v)
+                                      for x, v in sorted(b.items())
+                                      if x != k)[:200]))
+                if bad or not any(n.get("k") == "forr"
+                                  for n in walk(f["body"])):
+                    break
+    R.floor("handlers combining three-valued sub-answers", nmono, 70)
+
+    assumption_ingest(prog, R)
+
+
+# ------------------------------------------------------------------ R34.6
+from fractions import Fraction as _Fr
+from selib.absint import Domain as _Domain
+
+_SQRT2 = ("irr", 1.4142135623730951)
+_IMAG = ("nonreal",)
+_XS = [_Fr(-2), _Fr(-1), _Fr(-1, 2), _Fr(0), _Fr(1, 2), _Fr(1), _Fr(2),
+       _SQRT2, ("irr", -1.4142135623730951), _IMAG]
+_NS = [_Fr(-1), _Fr(-1, 2), _Fr(0), _Fr(1, 2), _Fr(1), _SQRT2, _IMAG]
+
+
+def _real(v):
+    return v != _IMAG
+
+
+def _num(v):
+    return float(v[1]) if isinstance(v, tuple) else float(v)
+
+
+_FACTS = {
+    "zero_": lambda x: _real(x) and _num(x) == 0,
+    "nonzero_": lambda x: not (_real(x) and _num(x) == 0),
+    "positive_": lambda x: _real(x) and _num(x) > 0,
+    "negative_": lambda x: _real(x) and _num(x) < 0,
+    "nonnegative_": lambda x: _real(x) and _num(x) >= 0,
+    "nonpositive_": lambda x: _real(x) and _num(x) <= 0,
+    "complex_symbols_": lambda x: True,
+    "real_symbols_": _real,
+    "rational_symbols_": lambda x: isinstance(x, _Fr),
+    "integer_symbols_": lambda x: isinstance(x, _Fr) and x.denominator == 1,
+}
+_SETS = {"Complexes": lambda x: True, "Reals": _real,
+         "Rationals": _FACTS["rational_symbols_"],
+         "Integers": _FACTS["integer_symbols_"]}
+
+
+def _holds(typ, a1, a2):
+    if typ in ("LessThan", "StrictLessThan"):
+        if not (_real(a1) and _real(a2)):
+            return False
+        return _num(a1) <= _num(a2) if typ == "LessThan" \
+            else _num(a1) < _num(a2)
+    same = (a1 == a2) if (isinstance(a1, tuple) or isinstance(a2, tuple)) \
+        else a1 == a2
+    return same if typ == "Equality" else not same
+
+
+class StmtDomain(_Domain):
+    """one abstract statement: its class, which argument is the symbol and
+    the value of the number (or the set of a Contains)"""
+
+    def __init__(self, typ, sym=None, n=None, setname=None):
+        self.typ, self.sym, self.n, self.setname = typ, sym, n, setname
+
+    def value(self, I, e, env):
+        if e.get("k") == "mcall" and e.get("n") in (
+                "get_arg1", "get_arg2", "get_expr", "get_set"):
+            o = I.eval(e.get("o"), env)
+            if isinstance(o, tuple) and o and o[0] == "iter":
+                return {"get_arg1": ("arg", 1), "get_arg2": ("arg", 2),
+                        "get_expr": ("expr",), "get_set": ("set",)}[e["n"]]
+        return TOP
+
+    def atom(self, I, e, env):
+        k = e.get("k")
+        if k == "call" and e.get("n") in ("is_a", "is_a_Number") \
+                and e.get("a"):
+            v = I.eval(e["a"][0], env)
+            T = short(strip_type(e["ta"][0])) if e.get("ta") else None
+            if not isinstance(v, tuple) or not v:
+                return None
+            if e["n"] == "is_a_Number":
+                return v[0] == "arg" and v[1] != self.sym
+            if v[0] == "iter":
+                return T == self.typ
+            if v[0] == "arg":
+                if T == "Symbol":
+                    return v[1] == self.sym
+                return False if v[1] == self.sym else None
+            if v[0] == "expr":
+                return T == "Symbol"
+            if v[0] == "set":
+                return T == self.setname
+        if k == "mcall" and e.get("n") in ("is_zero", "is_positive",
+                                           "is_negative", "is_complex"):
+            v = I.eval(e.get("o"), env)
+            if isinstance(v, tuple) and v[:1] == ("arg",) \
+                    and v[1] != self.sym and self.n is not None:
+                if self.n == _IMAG:
+                    return e["n"] == "is_complex"
+                x = _num(self.n)
+                return {"is_zero": x == 0, "is_positive": x > 0,
+                        "is_negative": x < 0, "is_complex": False}[e["n"]]
+        return None
+
+    def effect(self, I, e, env):
+        w = None
+        if e.get("k") == "mcall" and e.get("n") == "set_map" \
+                and len(e.get("a", ())) == 3 \
+                and e["a"][0].get("k") == "mem":
+            w = (e["a"][0]["m"], I.eval(e["a"][1], env),
+                 I.cond(e["a"][2], env), e.get("l"))
+        elif e.get("k") == "mcall" and e.get("n") == "insert" \
+                and (e.get("o") or {}).get("k") == "mem" \
+                and ((e["o"].get("o") or {}).get("k") == "this") \
+                and e.get("a"):
+            w = (e["o"]["m"], I.eval(e["a"][0], env), True, e.get("l"))
+        if w is None:
+            return None
+        return {"__writes": env.get("__writes", ()) + (w,)}
+
+
+def assumption_ingest(prog, R):
+    R.rule("R34.6", "the Assumptions constructor records only facts that "
+                    "every value satisfying the statement has")
+    fs = prog.fn_by_qn("SymEngine::Assumptions::Assumptions")
+    fs = [f for f in fs if f.get("params") and "set" in f["params"][0]["t"]]
+    if len(fs) != 1:
+        raise AnalysisBroken("Assumptions(const set_basic&) not found")
+    f = fs[0]
+    forms = []
+    for typ in ("LessThan", "StrictLessThan", "Equality", "Unequality"):
+        for sym in (1, 2):
+            for n in _NS:
+                if n == _IMAG and typ in ("LessThan", "StrictLessThan"):
+                    continue
+                forms.append(StmtDomain(typ, sym, n))
+    for setname in _SETS:
+        forms.append(StmtDomain("Contains", None, None, setname))
+    nwrites = 0
+    for D in forms:
+        I = Interp(prog, D)
+        I.unroll = 1
+        outs = I.run(f, TOP, [TOP])
+        if D.typ == "Contains":
+            S = [x for x in _XS if _SETS[D.setname](x)]
+            desc = "Contains(x, %s)" % D.setname
+        else:
+            S = [x for x in _XS if _holds(D.typ, *(
+                (x, D.n) if D.sym == 1 else (D.n, x)))]
+            nt = "I" if D.n == _IMAG else (
+                "sqrt(2)" if D.n == _SQRT2 else str(D.n))
+            desc = "%s(%s, %s)" % (D.typ, *(("x", nt) if D.sym == 1
+                                            else (nt, "x")))
+        seen = set()
+        for o in outs:
+            if o.kind == "throw":
+                continue
+            for mem, who, val, line in (o.env or {}).get("__writes", ()):
+                if (mem, val, line) in seen:
+                    continue
+                seen.add((mem, val, line))
+                nwrites += 1
+                key = "%s:%s=%s" % (desc, mem, val)
+                R.instance("R34.6", key, nontrivial=bool(S), sample={
+                    "statement": desc, "fact": mem, "value": val,
+                    "definite_path": o.definite})
+                if mem not in _FACTS or val is None or not S:
+                    if mem not in _FACTS:
+                        R.undecided_obligation("R34.6", key,
+                                               "unknown fact table " + mem)
+                    continue
+                if not o.definite:
+                    continue
+                ok_who = who == ("expr",) or who == ("arg", D.sym)
+                bad = [x for x in S if _FACTS[mem](x) != val]
+                if not ok_who:
+                    R.violation(
+                        "R34.6", "%s:%s" % (D.typ, mem),
+                        prog.loc(f, line),
+                        "for the statement %s the constructor records "
+                        "%s for the number, not for the symbol" % (desc,
+                                                                   mem))
+                elif bad:
+                    R.violation(
+                        "R34.6", "%s:%s" % (D.typ, mem),
+                        prog.loc(f, line),
+                        "for the statement %s the constructor records "
+                        "%s = %s for x, but x = %s satisfies the statement "
+                        "and does not have that property: every later "
+                        "query under this assumption can be definitely "
+                        "wrong" % (desc, mem.rstrip("_"), val,
+                                   "I" if bad[0] == _IMAG else (
+                                       bad[0][1] if isinstance(bad[0], tuple)
+                                       else bad[0])))
+    R.floor("facts recorded over the abstract statement forms", nwrites, 150)
+
 
 MANIFEST = dict(
     technique="finite-domain abstract interpretation of the number handlers "
